@@ -2,3 +2,35 @@ reg("C06", "exploration", "reference-model monitor (big-int evaluator R2) over e
     "Every operator is run on every ordered pair of a 45-value boundary pool (complete in both tiers), plus a 33x33 integer grid and seeded random trees/sequences; each result is compared with an independent math/big evaluator. Held means: no panic, no wrapped value, no type-check miss on any executed evaluation.",
     "Trusts the harness's transcription of the documented operator table (DESIGN appendix A) and Go's regexp; lenient cells (mixed-kind sets, duplicate sets) only require no panic.",
     "DESIGN.md 3/C06")
+reg("C05", "exploration", "reference-model monitor (independent least-fixpoint evaluator R1) over random programs + bounded-exhaustive join scope; race detector in thorough",
+    "World.Run / QueryRule results are compared, as sets of resolved facts, with a reference fixpoint written with a different algorithm (naive iteration, back-tracking unification); the hand-written join enumerator is additionally run on every body of 1-3 atoms over a small vocabulary against every ordered fact list (complete in thorough, sampled in quick).",
+    "Trusts R1/R2 (about 300 lines, written from the property statement); programs in the lenient expression zone are skipped and counted.",
+    "DESIGN.md 3/C05")
+reg("C04", "exploration", "reference-model monitor (decision procedure R5 over R1) with perturbation neighbours",
+    "The outcome class of Authorize (OK / DENY / NOMATCH / FAIL) is compared with an independent implementation of the specified decision procedure on seeded scenarios and on neighbours that separate the usual inversions; content is entered through builder structs and through parsed text.",
+    "Stated fragment only (ground facts, range-restricted rules, error-free or uniformly failing expressions); order-dependent cases give no verdict and are counted.",
+    "DESIGN.md 3/C04")
+reg("C07", "exploration", "independent wire decoder (R3) vs the model carried by token histories; byte-exact re-serialization; version gate",
+    "Every live token of seeded build/append/seal/reload histories is decoded by a hand-written protobuf reader with its own symbol table and compared block for block with what the callers supplied; Unmarshal and re-serialization are compared; unsupported versions re-signed by R3 must be rejected.",
+    "Trusts R3's transcription of the schema and default symbols.",
+    "DESIGN.md 3/C07")
+reg("C08", "exploration", "model-based history monitor: every live token and built block re-observed after every operation",
+    "After each operation of a seeded history every live token is re-snapshotted (print, bytes, reload, ids, panel behaviour) and compared with its creation snapshot; new tokens and built blocks are decoded independently and compared with what their own caller put in.",
+    "Block builders are built once and appended to the token they were created from.",
+    "DESIGN.md 3/C08")
+reg("C16", "exploration", "model + reference key selection, bounded-exhaustive over ids x histories x key maps x defaults",
+    "All 6 identifiers x all legal derivation histories up to length 4 x 27 lookups per token are executed; the identifier of every derived token and the outcome of every lookup are compared with a reference selection function.",
+    "ed25519 signatures by another key do not verify.",
+    "DESIGN.md 3/C16")
+reg("C20", "fault_enumeration", "fault-injecting io.Reader, every failure point x error kind x delivery pattern; independent chain verifier on returned tokens",
+    "Exhaustive enumeration (2316 cases) of failure points 0..31, three error kinds, two timings and three delivery patterns for all four operations that draw randomness, plus controls.",
+    "GenerateKey draws exactly 32 bytes with io.ReadFull (pinned toolchain).",
+    "DESIGN.md 3/C20")
+reg("C01", "fault_enumeration", "mutation catalogue decided by an independent chain verifier (R3); run.iter hook shows no Datalog before rejection",
+    "Every mutant of the catalogue M1-M13 (plus every single-bit flip and prefix of sampled tokens, and the sample corpus) is presented under four keys; a token the independent verifier rejects must be rejected by Unmarshal/AuthorizerFor, library-made and R3-written valid chains must be accepted.",
+    "ed25519 trusted; mutants R3 cannot decode canonically only carry the no-panic obligation.",
+    "DESIGN.md 3/C01")
+reg("C10", "exploration", "panic monitor + process-exit journal over isolated workers; hostile schema-valid tokens validly signed by an attacker root",
+    "Every API is driven under recover over tokens from hostile bytes; validly signed adversarial field values reach evaluation; a process death is attributed to its input by the worker journal.",
+    "32-byte keys; address space capped.",
+    "DESIGN.md 3/C10")
